@@ -18,6 +18,7 @@ import (
 	"strconv"
 	"strings"
 	"sync"
+	"sync/atomic"
 	"time"
 
 	"github.com/lni/dragonboat/v4/internal/tan"
@@ -282,21 +283,41 @@ func (h *harness) retire() {
 	if h.db != nil {
 		db := h.db
 		h.db = nil
-		func() {
-			defer func() {
-				if r := recover(); r != nil {
-					h.ctx.Count("ev.zombie_close_panic", 1)
-					h.ctx.Tracef("zombie close panicked: %v", r)
-				}
-			}()
-			if err := db.Close(); err != nil {
-				h.ctx.Tracef("zombie close: %v", err)
-			}
-		}()
+		h.guardedClose(db.Close)
 	}
 	h.jobs = nil
 	h.closeStrays()
 }
+
+// guardedClose closes an instance that may be broken beyond repair: Pebble
+// raises its fatal errors (which dragonboat turns into panics) while holding
+// its DB mutex, after which Close blocks forever. Such an instance is
+// abandoned (its goroutines are parked on that mutex). The timeout is an
+// infrastructure guard only; nothing the run decides or reports depends on it.
+func (h *harness) guardedClose(closeFn func() error) {
+	done := make(chan struct{})
+	go func() {
+		defer close(done)
+		defer func() {
+			if r := recover(); r != nil {
+				h.ctx.Tracef("zombie close panicked: %v", r)
+			}
+		}()
+		if err := closeFn(); err != nil {
+			h.ctx.Tracef("zombie close: %v", err)
+		}
+	}()
+	t := time.NewTimer(250 * time.Millisecond)
+	defer t.Stop()
+	select {
+	case <-done:
+	case <-t.C:
+		abandoned.Add(1)
+	}
+}
+
+// abandoned counts store instances that could not be closed (process wide).
+var abandoned atomic.Int64
 
 // closeStrays closes Pebble instances that ShardedDB left open on an error
 // path (see kvFactory).
@@ -304,10 +325,7 @@ func (h *harness) closeStrays() {
 	for _, s := range h.kvs {
 		if !s.closed {
 			h.ctx.Count("ev.stray_kv_closed", 1)
-			func() {
-				defer func() { _ = recover() }()
-				_ = s.Close()
-			}()
+			h.guardedClose(s.Close)
 		}
 	}
 	h.kvs = nil
